@@ -1,3 +1,4 @@
+import SctpVerif.Proofs.Handshake
 import SctpVerif.Proofs.PendQWfqLag
 import Mathlib.Tactic.NormNum
 /-!
@@ -369,5 +370,23 @@ example : popsOf ((((rrFresh : PQ Rat).run exRRPre).1.step .pop).1.run [.pop, .p
       [⟨3, 2, false, true, true, 1⟩, ⟨6, 3, false, true, true, 1⟩, ⟨1, 1, false, true, true, 1⟩] ∧
     PQ.AllStates (fun q => q.backlogged 1 ∧ q.backlogged 2) (((rrFresh : PQ Rat).run exRRPre).1.step .pop).1 [.pop, .peek, .pop] := by
   decide
+
+/-- Negotiation half: in every run of the handshake model (any loss, duplication, reordering, timer expiry,
+all option combinations) an established endpoint uses I-DATA / I-FORWARD-TSN framing exactly when BOTH sides
+enabled interleaving, and DATA / FORWARD-TSN otherwise — so both ends use the same kind. -/
+theorem C17_kind_as_negotiated (ilA zcA ilB zcB : Bool) (ops : List Hs.Op) :
+    let s := (Hs.Sys.init ilA zcA ilB zcB).run ops
+    (s.a.st = Hs.stEstablished → s.a.uil = (ilA && ilB) ∧ s.a.uifwd = (ilA && ilB) ∧ s.a.ufwd = !(ilA && ilB)) ∧
+    (s.b.st = Hs.stEstablished → s.b.uil = (ilA && ilB) ∧ s.b.uifwd = (ilA && ilB) ∧ s.b.ufwd = !(ilA && ilB)) := by
+  intro s
+  have h := Hs.run_inv ilA zcA ilB zcB ops
+  constructor
+  · intro he
+    have := Hs.established_flags _ _ _ _ _ _ h.a he
+    exact ⟨this.1, this.2.1, this.2.2.1⟩
+  · intro he
+    have := Hs.established_flags _ _ _ _ _ _ h.b he
+    rw [Bool.and_comm ilB ilA] at this
+    exact ⟨this.1, this.2.1, this.2.2.1⟩
 
 end C17
